@@ -222,8 +222,7 @@ def instances(tier):
         add("HEA", "H2", mp, utd)
         for cls in ("QMF", "QCC", "ILC"):
             add(cls, "H2", mp, utd)
-            if not Q:
-                add(cls, "H4", mp, utd, cost=3)
+            add(cls, "H4", mp, utd, cost=3)
         for order in (1, 2):
             for nav in (False, True):
                 add("VSQS", "H2", mp, utd, cost=2, order=order, nav=nav)
@@ -385,12 +384,12 @@ class Graph:
         word = [(h.get("op", "start"), h.get("name", h.get("p"))) for h in hist]
         return {"kind": "hist", "inst": self.inst, "K": self.K, "seed": self.seed, "hist": hist, "word": word}
 
-    def viol(self, acc, hist, site, kind, sig, detail):
+    def viol(self, acc, hist, site, kind, sig, detail, probe=None):
         if hist is None:
             return
         d = dict(detail or {})
         d["instance"] = self.lab
-        d["repro"] = repro_script(self.inst, hist)
+        d["repro"] = repro_script(self.inst, hist, probe)
         acc.violation(f"{self.call}.{site}/{kind}/{sig}", self.case(hist), d, group=f"{self.call}.{site}/{kind}")
 
     def statevec(self, circuit, n):
@@ -534,13 +533,13 @@ class Graph:
                     continue
                 self.viol(acc, hist, meth, "wrong-length-accepted", f"{self.var}:{lab}",
                           {"n_var_params": n, "given_length": len(bad), "method": meth,
-                           "var_params_after": canon_obj(obj.a.var_params)})
+                           "var_params_after": canon_obj(obj.a.var_params)}, probe=(meth, bad))
 
 
 # ---------------------------------------------------------------------------------------------------------------------
 # standalone reproduction text (goes into the violation detail)
 
-def repro_script(inst, hist):
+def repro_script(inst, hist, probe=None):
     cls, mp, utd, o = inst["cls"], inst.get("map"), inst.get("utd"), inst.get("opt", {})
     L = ["import numpy as np, math, copy", "from tangelo import SecondQuantizedMolecule", "from tangelo.linq import get_backend, Circuit, Gate",
          "from tangelo.toolboxes.ansatz_generator import *", "from tangelo.toolboxes.operators import QubitOperator, FermionOperator"]
@@ -585,7 +584,10 @@ def repro_script(inst, hist):
         else:
             L.append(f"a.build_circuit({_short(h['vec'])})")
             last = h["vec"]
-    if last is not None:
+    if probe is not None:
+        L += [f"print('n_var_params =', a.n_var_params)",
+              f"a.{probe[0]}({_short(probe[1])})   # {len(probe[1])} values: must raise, returns silently"]
+    elif last is not None:
         L += [f"b = mk({ops}); b.build_circuit({_short(last)})", "sim = get_backend('cirq')",
               "sa = sim.simulate(a.circuit, return_statevector=True)[1]; sb = sim.simulate(b.circuit, return_statevector=True)[1]",
               "print('fidelity history-object vs fresh build:', abs(np.vdot(sa, sb))**2)"]
